@@ -56,11 +56,15 @@ Definition count_res (r : wres) (l : list event) : nat :=
   length (filter (fun e => match e with EAttempt _ _ _ _ _ x => wres_code x =? wres_code r | _ => false end) l).
 Definition attempts (l : list event) : nat :=
   length (filter (fun e => match e with EAttempt _ _ _ _ _ _ => true | _ => false end) l).
+Definition pres_code (r : pres) : Z := match r with PRZero => 0 | PRWouldBlock => 1 | PROther => 3 end.
 Definition probe_code (l : list event) : Z :=
-  fold_left (fun acc e => match e with EProbe _ _ _ _ _ r => wres_code r | _ => acc end) l (-1).
+  fold_left (fun acc e => match e with
+                          | EProbe _ _ _ _ _ r => wres_code r
+                          | EGetsockopt _ _ _ _ r => pres_code r
+                          | _ => acc end) l (-1).
 
 Fixpoint deliver_n (n : nat) (st : state) (sig : Z) : state :=
-  match n with O => st | S k => deliver_n k (step accept_cap st (ODeliver sig)) sig end.
+  match n with O => st | S k => deliver_n k (step accept_cap rr_probe st (ODeliver sig)) sig end.
 
 Definition all_units (st : state) (ch : nat) : nat := length (c_q (getc (chans st) ch)).
 
@@ -75,7 +79,7 @@ Fixpoint go (fuel : nat) (st : state) (l : list Z) : list Z :=
   | S f =>
       match l with
       | 1 :: g :: sig :: ch :: o :: t =>
-          let st' := step accept_cap st (ORegister (zb g) sig (Z.to_nat ch) (outcome_of o)) in
+          let st' := step accept_cap rr_probe st (ORegister (zb g) sig (Z.to_nat ch) (outcome_of o)) in
           let ne := new_events st st' in
           let id := length (regs st) in
           let r := nth id (regs st') (mkReg 0 0 Write Rejected) in
@@ -92,10 +96,10 @@ Fixpoint go (fuel : nat) (st : state) (l : list Z) : list Z :=
           let c := Z.to_nat ch in
           let k := if n =? 0 then all_units st c else Z.to_nat n in
           let d := drained st c k in
-          let st' := step accept_cap st (ODrain c k) in
+          let st' := step accept_cap rr_probe st (ODrain c k) in
           [3; zn (length d); zn (q_bytes (c_kind (getc (chans st) c)) d); zn (count_wake d)] ++ go f st' t
       | 4 :: id :: t =>
-          let st' := step accept_cap st (OUnregister (Z.to_nat id)) in
+          let st' := step accept_cap rr_probe st (OUnregister (Z.to_nat id)) in
           let ne := new_events st st' in
           let open := match nth_error (regs st') (Z.to_nat id) with
                       | Some r => match r_status r with Active => 1 | _ => 0 end
@@ -117,12 +121,12 @@ Fixpoint final_state (fuel : nat) (st : state) (l : list Z) : state :=
   | O => st
   | S f =>
       match l with
-      | 1 :: g :: sig :: ch :: o :: t => final_state f (step accept_cap st (ORegister (zb g) sig (Z.to_nat ch) (outcome_of o))) t
+      | 1 :: g :: sig :: ch :: o :: t => final_state f (step accept_cap rr_probe st (ORegister (zb g) sig (Z.to_nat ch) (outcome_of o))) t
       | 5 :: sig :: n :: t => final_state f (deliver_n (Z.to_nat n) st sig) t
       | 3 :: ch :: n :: t =>
           let c := Z.to_nat ch in
-          final_state f (step accept_cap st (ODrain c (if n =? 0 then all_units st c else Z.to_nat n))) t
-      | 4 :: id :: t => final_state f (step accept_cap st (OUnregister (Z.to_nat id))) t
+          final_state f (step accept_cap rr_probe st (ODrain c (if n =? 0 then all_units st c else Z.to_nat n))) t
+      | 4 :: id :: t => final_state f (step accept_cap rr_probe st (OUnregister (Z.to_nat id))) t
       | _ => st
       end
   end.
@@ -136,11 +140,13 @@ Definition run_c13 (inp : list Z) : list Z :=
   | [] => [-99]
   end.
 
-(** one row of the OS oracle table: [kind; nonblock; full; other_err; sys (0 write, 1 send); len; flags] -> result code *)
+(** one row of the OS oracle table: [kind; nonblock; full; other_err; sys; len; flags] -> result code
+    sys 0 write | 1 send | 2 getsockopt(level = len, option = flags) *)
 Definition run_oracle (inp : list Z) : list Z :=
   match inp with
   | [kd; nb; full; oe; sy; len; fl] =>
       let c := mkChan (kind_of kd) (zb nb) [] 0 true false (zb oe) 0 in
+      if sy =? 2 then [pres_code (sockopt_result c len fl)] else
       [wres_code (sys_result (fun _ _ => negb (zb full)) 0%nat c (if sy =? 0 then SysWrite else SysSend) len fl)]
   | _ => [-99]
   end.
